@@ -24,7 +24,68 @@ static shapes::tmesh seed_mesh(const std::string& s) {
     return m;
 }
 
+// ---- "big": a population with more than 65536 points and 131072 triangles in ONE file (a small cell, a finely meshed one, a
+// small one): point offsets, counts and face numbers beyond 16 bits.  Too large for TLC to tokenise; the driver compares what the
+// real reader returns with what was written (counts, triangles over the same coordinates to the written precision) and logs verdicts.
+static int run_big(const char* out_path, const std::string& work) {
+    FILE* fo = fopen(out_path, "w");
+    std::vector<cell_ptr> L;
+    std::vector<shapes::tmesh> src;
+    for (int i = 0; i < 3; i++) {
+        shapes::tmesh m = i == 1 ? shapes::sphere(7) : shapes::sphere(1);
+        shapes::transform(m, i == 1 ? 3e-5 : 4e-6, 1e-4 * i, -2e-5 * i, 3e-5);
+        auto ct = std::make_shared<cell_type_parameters>();
+        ct->global_type_id_ = (short)(i == 1 ? 2 : 0);
+        face_type_parameters ft; ct->add_face_type(ft); ct->add_face_type(ft); ct->add_face_type(ft);
+        cell_ptr c;
+        if (i == 1) c = std::make_shared<lumen_cell>(m.pos, m.tris, (unsigned)(10 + i), ct); else c = std::make_shared<epithelial_cell>(m.pos, m.tris, (unsigned)(10 + i), ct);
+        c->initialize_cell_properties(true);
+        L.push_back(c); src.push_back(m);
+    }
+    // snapshot: per cell, the triangles as coordinate triples (what must come back)
+    auto snap = [&](cell& c) { std::vector<std::array<double, 9>> T; auto& N = cell_tester::nodes(c);
+        for (auto& f : cell_tester::faces(c)) if (f.is_used()) { auto t = cell_tester::tri(f); std::array<double, 9> a; for (int k = 0; k < 3; k++) { a[3 * k] = N[t[k]].pos().dx(); a[3 * k + 1] = N[t[k]].pos().dy(); a[3 * k + 2] = N[t[k]].pos().dz(); } T.push_back(a); }
+        return T; };
+    std::vector<std::vector<std::array<double, 9>>> want; for (auto& c : L) want.push_back(snap(*c));
+    const std::string cpath = work + "/big_cell.vtk", fpath = work + "/big_face.vtk";
+    std::string werr, rerr;
+    try { mesh_writer::write(cpath, fpath, L); } catch (std::exception& e) { werr = e.what(); }
+    bool counts_ok = false, types_ok = false, tris_ok = false; size_t npts = 0, ntris = 0;
+    if (werr.empty()) {
+        try {
+            mesh_reader r(cpath, false);
+            auto meshes = r.read();
+            auto types = r.get_cell_types();
+            counts_ok = meshes.size() == L.size();
+            types_ok = types.size() == 3 && types[0] == 0 && types[1] == 2 && types[2] == 0;
+            tris_ok = counts_ok;
+            for (size_t i = 0; i < meshes.size() && tris_ok; i++) {
+                auto& mm = meshes[i];
+                npts += mm.node_pos_lst.size() / 3; ntris += mm.face_point_ids.size();
+                if (mm.face_point_ids.size() != want[i].size()) { tris_ok = false; break; }
+                for (size_t f = 0; f < want[i].size() && tris_ok; f++) {
+                    auto& ids = mm.face_point_ids[f];
+                    if (ids.size() != 3) { tris_ok = false; break; }
+                    for (int k = 0; k < 3 && tris_ok; k++) for (int a = 0; a < 3; a++) {
+                        if (3 * (size_t)ids[k] + a >= mm.node_pos_lst.size()) { tris_ok = false; break; }
+                        const double got = mm.node_pos_lst[3 * ids[k] + a], w = want[i][f][3 * k + a];
+                        if (std::abs(got - w) > 6e-5 * std::abs(w) + 1e-300) tris_ok = false;
+                    }
+                }
+            }
+        } catch (std::exception& e) { rerr = e.what(); }
+    }
+    std::remove(cpath.c_str()); std::remove(fpath.c_str());
+    vj::out o;
+    o.obj().key("op").str("big_roundtrip").key("write_error").str(werr).key("read_error").str(rerr).key("npoints").i(npts).key("ntris").i(ntris)
+     .key("counts_ok").b(counts_ok).key("types_ok").b(types_ok).key("tris_ok").b(tris_ok).end_obj();
+    fprintf(fo, "%s\n", o.text().c_str());
+    fclose(fo);
+    return 0;
+}
+
 int main(int argc, char** argv) {
+    if (argc >= 4 && std::string(argv[1]) == "big") return run_big(argv[2], argv[3]);
     if (argc < 4) return 2;
     auto cases = vj::read_ndjson(argv[1]);
     FILE* fo = fopen(argv[2], "w");
